@@ -355,7 +355,7 @@ func (h *hostileRun) rawPeer(i int) {
 	ps := h.peers[i]
 	defer func() { ps.done = true }()
 	if p.StartUs > 0 {
-		simrt.Sleep(time.Duration(p.StartUs) * time.Microsecond)
+		hSleep(time.Duration(p.StartUs) * time.Microsecond)
 	}
 	d := &net.Dialer{Timeout: time.Second}
 	c, err := simnet.DialContext(d, context.Background(), "tcp", simAddr)
@@ -367,7 +367,7 @@ func (h *hostileRun) rawPeer(i int) {
 	// reader: collects what the server says until it closes
 	var in []byte
 	readerDone := false
-	simrt.Go(fmt.Sprintf("raw%d-reader", i), func() {
+	hGo(fmt.Sprintf("raw%d-reader", i), func() {
 		buf := make([]byte, 4096)
 		for {
 			n, err := c.Read(buf)
@@ -401,7 +401,7 @@ func (h *hostileRun) rawPeer(i int) {
 	ps.wroteAll = ok
 	simrt.Logf("raw%d script written (all=%v)", i, ok)
 	// give the server time to react, then look at what it did
-	simrt.WaitCondUntil("raw.wait-close", func() bool { return readerDone }, time.Now().Add(2*time.Second))
+	hWaitCondUntil("raw.wait-close", func() bool { return readerDone }, time.Now().Add(2*time.Second))
 	// parse the server's answer: line + connect response
 	if idx := indexByte(in, '\n'); idx >= 0 && len(in) >= idx+1+4 {
 		rest := in[idx+1:]
@@ -425,7 +425,7 @@ func (h *hostileRun) rawPeer(i int) {
 	default:
 		// hang: keep the connection until the harness tears everything down
 	}
-	simrt.WaitCondUntil("raw.wait-close2", func() bool { return readerDone }, time.Now().Add(time.Second))
+	hWaitCondUntil("raw.wait-close2", func() bool { return readerDone }, time.Now().Add(time.Second))
 	if !readerDone {
 		c.Close()
 	}
